@@ -56,7 +56,7 @@ CHECKS = {
         "groups": [
             {"name": "c15", "run": "^TestC15_", "shards": {"quick": 8, "thorough": 16},
              "timeout": {"quick": 600, "thorough": 3000},
-             "checks": ["c15-backoff", "c15-reconnect", "c15-stream-order", "c15-close-stops"]},
+             "checks": ["c15-backoff", "c15-reconnect", "c15-stream-order", "c15-close-stops", "c15-retry-queue"]},
         ],
     },
     "C16": {
